@@ -42,6 +42,7 @@ class Wiring:
             self.I.contracts[c] = self.make(c)
         self.writes = []
         self.I.observers["std::fmt::Formatter::<'a>::write_fmt"] = lambda I_, st, args, site: self.writes.append((st, args))
+        self.I.observers["std::fmt::Formatter::<'a>::write_str"] = lambda I_, st, args, site: self.writes.append((st, args, 'write_str'))
         self.sers = []
         self.I.observers['serde::Serializer::serialize_str'] = lambda I_, st, args, site: self.sers.append((st, args))
         self.I.return_partition[fn] = lambda I_, st, v: id(st)
@@ -88,10 +89,15 @@ def check_type(ctx, cfg, path, spec, facts):
             elif len(W.writes) != 1:
                 msg = f'expected one write to the formatter, found {len(W.writes)}'
             else:
-                wst, wargs = W.writes[0]
+                wst, wargs = W.writes[0][0], W.writes[0][1]
                 a = wargs[1]
                 okw = False
-                if a[0] == 's' and a[1] == FMTARGS and a[2][0][0] == 'a' and a[2][1][0] == 'a':
+                if len(W.writes[0]) > 2:
+                    # f.write_str(&text): the text itself
+                    sv_ = strv_of(W.I, wst, a)
+                    rs = strv_of(W.I, wst, r)
+                    okw = sv_ is not None and rs is not None and sv_.ident == rs.ident
+                elif a[0] == 's' and a[1] == FMTARGS and a[2][0][0] == 'a' and a[2][1][0] == 'a':
                     bs = [int(D.get_iv(wst, b[1])[0]) for b in a[2][0][1]]
                     tm = decode_template(bs)
                     fa = a[2][1][1]
